@@ -36,7 +36,7 @@ func TestVerifC08Enum(t *testing.T) {
 	shard, nshards := c08Shard()
 	rep := kit.NewReport("C08", fmt.Sprintf("enum%d", shard))
 	defer rep.Write()
-	len3 := kit.Scale(5, 7)
+	len3 := kit.Scale(5, 6)
 	len4 := kit.Scale(0, 4)
 	rep.SetRule(fmt.Sprintf("small-scope enumeration: ALL key strings of length 1..%d over {nil,\"\",\"a\"} (and of length 1..%d over {nil,\"\",\"a\",\"b\"}) x EVERY HW in [-1,newest], 2 messages per segment (MaxSegmentBytes=60), CompactMaxGoroutines rotating over {1,2,10}; Clean, full oracle (must-survive, every forward/reverse reader start, index lookups, raw files), second Clean, full oracle again; non-trivial = >=2 segments and >=1 message removed", len3, len4))
 	rep.SetExhaustive(true)
